@@ -282,6 +282,13 @@ class Z3Conv:
         if isinstance(e, sp.exp):
             return self._exp(c(e.args[0]))
         if isinstance(e, sp.log):
+            # normalise products of powers inside the logarithm (log(10**x/10**y) -> (x-y) log 10)
+            try:
+                e2 = sp.expand_log(sp.log(sp.powsimp(e.args[0])))
+            except Exception:
+                e2 = e
+            if e2 != e and not (isinstance(e2, sp.log) and e2.args[0] == e.args[0]):
+                return c(e2)
             return self._log(c(e.args[0]))
         if isinstance(e, sp.sin):
             return self._sincos(c(e.args[0]))[0]
